@@ -15,6 +15,7 @@ import tempfile
 import time
 
 from . import known
+from . import linecov
 
 VERIF = os.path.dirname(os.path.dirname(os.path.abspath(__file__)))
 REPO = os.environ.get('VERIF_REPO', '/repo')
@@ -72,7 +73,8 @@ def merge(results, prop):
     m = {'counters': collections.Counter(), 'buckets': collections.Counter(), 'violations': [],
          'other_violations': collections.Counter(), 'nontrivial': collections.defaultdict(set),
          'samples': collections.defaultdict(list), 'max_ratio': {}, 'extras': [], 'errors': [], 'watchdog': 0,
-         'bugs': [], 'missing': set(), 'config_not_applied': [], 'worker_wall': 0.0}
+         'bugs': [], 'missing': set(), 'config_not_applied': [], 'worker_wall': 0.0,
+         'lines': collections.defaultdict(set)}
     for r in results:
         m['worker_wall'] += r.get('wall_s', 0.0)
         if r.get('watchdog'):
@@ -101,6 +103,8 @@ def merge(results, prop):
         m['extras'].append(r.get('extra') or {})
         m['bugs'].extend(r.get('bugs') or [])
         m['missing'].update(r.get('missing') or [])
+        for k, v in (r.get('lines') or {}).items():
+            m['lines'][k].update(v)
     return m
 
 
@@ -209,6 +213,9 @@ def conclude(prop, tier, seed, mod, m, jobs, t0, replay, verbose):
         'worker_cpu_s': round(m['worker_wall'], 1),
     }
     coverage.update(fin.get('coverage') or {})
+    if m['lines']:
+        # where the workload went inside the library (observed by a sys.monitoring LINE tool in every worker)
+        coverage['library_lines'] = linecov.summarise(m['lines'], os.path.join(REPO, 'pyplate'))
     if len(json.dumps(coverage['buckets'])) > 60000:
         keys = sorted(coverage['buckets'])
         coverage['buckets'] = {k: coverage['buckets'][k] for k in keys[:400]}
